@@ -209,7 +209,8 @@ def run(ctx, eng):
         ok = len(wo) == 1 and wo[0].args[0] == ('p', 'delta') and \
             len(mw) == 1 and cm.aff_is(mw[0].value, {
                 'delta': 1,
-                'self._inbound_window_manager.max_window_size': 1})
+                'self._inbound_window_manager.max_window_size': 1}) and \
+            cm.reads_entry_value(mw[0].value, 'max_window_size')
     ctx.ob('FLOW.maximum', f6.qual, 'maximum moves by the settings delta',
            ok, 'max_window_size = old maximum + delta (not derived from the '
            'current window: bytes received but not yet acknowledged must '
